@@ -331,9 +331,7 @@ def run(tier, seed):
                 for K, why in sorted(owning_states.items()):
                     # paths consistent with 'curr_file_type == K': drop edges that refute it (type != K, or type == K' for
                     # another constant K'); on what remains every path to the target must pass a release of curr_file
-                    cut = F.edges_with_fact(("ne", ctype, K))
-                    for K2 in set(mod.enums[k] for k in mod.enums if k.startswith("CURR_FILE_")) - {K}:
-                        cut |= F.edges_with_fact(("eq", ctype, K2))
+                    cut = F.edges_refuting(ctype, K)
                     for c in fn_.insts():
                         if c.op == "call" and mod.callee_cname(c) == "lha_file_header_free" and Mx.match(curr, c.ops[0], {}) is not None:
                             cut |= {(c.block.id, s) for s in c.block.succs}
